@@ -68,6 +68,14 @@ NOMINATIVE_REPORTER_NAMES = {
 }
 
 
+# Non-ASCII characters that re.IGNORECASE treats as case variants of ASCII
+# letters, but that str.lower() does not map to those letters. They have to be
+# folded by hand before text is run through the case-insensitive filter:
+NON_ASCII_CASE_VARIANTS = str.maketrans(
+    {"\u0130": "i", "\u0131": "i", "\u017f": "s", "\u212a": "k"}
+)
+
+
 def token_is_from_nominative_reporter(token: Token) -> bool:
     """Returns true if the token is a citation from a nominative reporter
 
@@ -441,7 +449,9 @@ class AhocorasickTokenizer(Tokenizer):
         unique_extractors = set(self.unfiltered_extractors)
         for _, extractors in self.case_sensitive_filter.iter(text):
             unique_extractors.update(extractors)
-        for _, extractors in self.case_insensitive_filter.iter(text.lower()):
+        for _, extractors in self.case_insensitive_filter.iter(
+            text.translate(NON_ASCII_CASE_VARIANTS).lower()
+        ):
             unique_extractors.update(extractors)
         return unique_extractors
 
